@@ -1218,4 +1218,19 @@ example : ∃ r, w0.exec b0 (.sendCw20 "alice" "T1" 40 (some tm)) = .ok r :=
     ⟨by decide, by decide, by decide, tm, rfl,
       (transfer_accepted_iff _ _ _ _ _ _).mpr ⟨by decide, by decide, by decide, by decide, by decide, by decide, by decide, by decide, by decide⟩⟩
 
+/-- **C12, on histories that respect IBC core's guarantee `runG` skips nothing**: if every acknowledgement
+/ timeout of the history is `admissible` where it happens (`AdmissibleFrom`: the guarantee as a predicate on
+the history rather than as a filter), the ghost history of `outstanding_identity` is the unfiltered one and
+its world is the plain history `run w ops` — so `outstanding_identity` speaks about exactly the states the
+contract goes through. -/
+theorem admissible_history_is_plain (w : World) (ops : List (Block × Op)) (h : AdmissibleFrom (w, Ghost.init w) ops) :
+    runG (w, Ghost.init w) ops = runU (w, Ghost.init w) ops ∧ (runG (w, Ghost.init w) ops).1 = run w ops := by
+  have e := runG_eq_runU ops h
+  exact ⟨e, by rw [e]; exact runU_fst _ _⟩
+
+/-- the demo history respects the guarantee -/
+example : AdmissibleFrom (w0, Ghost.init w0) hist := by
+  refine ⟨rfl, rfl, rfl, rfl, ?_, trivial⟩
+  decide
+
 end CwPlus.Props.C12
